@@ -327,3 +327,127 @@ func Stage5Variants() [][]byte {
 		Box("meta", Cat([]byte("hdlr"), h1)), Box("meta", Cat(U32(33), []byte("hdlr"))))
 	return out
 }
+
+// ---------------------------------------------------------------- senc: structured per-sample layouts
+
+// SencBodies returns the bodies (version/flags, sample_count, per-sample data) of WELL-FORMED sample encryption
+// boxes with the layouts real packagers write, exhaustively for 1..3 samples and 0..2 sub-sample entries per sample
+// (sub-sample flag 0x2), plus the same IV layouts without sub-sample encryption.  The per-sample IV is
+//   16 bytes = 64-bit IV followed by a zero 64-bit block counter (the commonest layout), the same with a small
+//   counter, a small 64-bit IV (a sample number) + zero counter, an opaque 16-byte value; 8 bytes opaque / small.
+// Sub-sample entries come with small values (clear 0..1, protected 0..2) and with realistic ones.  Decoded WITHOUT
+// knowledge of the IV size (segment without init, tenc with per-sample IV size 0) the box has to be read by trial
+// (IV size 0, 8, 16): many of these bodies admit a shorter reading for a while (the 8-byte trial sees the zero
+// counter as sub-sample count 0 and walks through sample_count samples with bytes left over) before the right one
+// fits.  Whatever reading wins, the box must be written back as it was read.
+func SencBodies() [][]byte {
+	b, _ := sencBodiesIV()
+	return b
+}
+
+// sencBodiesIV: the bodies and the per-sample IV size each was written with.
+func sencBodiesIV() (out [][]byte, ivSize []int) {
+	iv := func(kind, i int) []byte {
+		hi := []byte{0xa1 + byte(16*i), 0xa2, 0xa3, 0xa4, 0xa5, 0xa6, 0xa7, 0xa8 + byte(i)}
+		lo := []byte{0, 0, 0, 0, 0, 0, 0, byte(i + 1)}
+		switch kind {
+		case 0:
+			return Cat(hi, make([]byte, 8))
+		case 1:
+			return Cat(hi, []byte{0, 0, 0, 0, 0, 0, 0, byte(i + 1)})
+		case 2:
+			return Cat(lo, make([]byte, 8))
+		case 3:
+			return []byte{0x01, 0x23, 0x45, 0x67, 0x89, 0xab, 0xcd, 0xef, 0xfe, 0xdc, 0xba, 0x98, 0x76, 0x54, 0x32, 0x10 + byte(i)}
+		case 4:
+			return hi
+		}
+		return lo
+	}
+	const nKinds = 6
+	add := func(kind int, b []byte) {
+		out = append(out, b)
+		ivSize = append(ivSize, len(iv(kind, 0)))
+	}
+	for kind := 0; kind < nKinds; kind++ {
+		for n := 1; n <= 3; n++ {
+			var raw []byte
+			for i := 0; i < n; i++ {
+				raw = append(raw, iv(kind, i)...)
+			}
+			add(kind, Cat(vf(0, 0), U32(uint32(n)), raw))
+			total := 1
+			for i := 0; i < n; i++ {
+				total *= 3
+			}
+			for style := 0; style < 2; style++ {
+				for t := 0; t < total; t++ {
+					raw = nil
+					for i, q := 0, t; i < n; i, q = i+1, q/3 {
+						k := q % 3
+						raw = Cat(raw, iv(kind, i), U16(uint16(k)))
+						for j := 0; j < k; j++ {
+							if style == 0 {
+								raw = Cat(raw, U16(uint16((i+j)%2)), U32(uint32((i+2*j)%3)))
+							} else {
+								raw = Cat(raw, U16(uint16(5+9*j)), U32(uint32(100+1000*i+j)))
+							}
+						}
+					}
+					add(kind, Cat(vf(0, 2), U32(uint32(n)), raw))
+				}
+			}
+		}
+	}
+	return
+}
+
+var piffSencUUID = []byte{0xa2, 0x39, 0x4f, 0x52, 0x5a, 0x9b, 0x4f, 0x14, 0xa2, 0x44, 0x6c, 0x42, 0x7c, 0x64, 0x8d, 0xf4}
+
+// SencVariants: the bodies of SencBodies as stand-alone senc boxes and (every third) as PIFF uuid boxes.
+func SencVariants() [][]byte {
+	var out [][]byte
+	for i, b := range SencBodies() {
+		out = append(out, Box("senc", b))
+		if i%3 == 0 {
+			out = append(out, Box("uuid", Cat(piffSencUUID, b)))
+		}
+	}
+	return out
+}
+
+// SencFiles: the bodies of SencBodies inside moof/traf of whole files in which the file decoder parses the senc box
+// (TrafBox.ParseReadSenc): a segment without init (IV size unknown), a PIFF uuid senc in a segment with styp, and
+// behind an init segment whose enca entry carries sinf/schi/tenc with per-sample IV size 0 + constant IV (unknown
+// again) or with the size the box was written with (known).
+func SencFiles() [][]byte {
+	ftyp := Box("ftyp", Cat([]byte("isom"), U32(512), []byte("isommp41")))
+	styp := Box("styp", Cat([]byte("msdh"), U32(0), []byte("msdhmsix")))
+	mvex := Box("mvex", Box("trex", Cat(vf(0, 0), U32(1), U32(1), U32(1024), U32(0), U32(0))))
+	mdat := mdatBox([]byte{1, 2, 3, 4, 5, 6, 7, 8, 9, 10, 11, 12, 13, 14, 15, 16, 17, 18, 19, 20})
+	enca := func(tencBody []byte) []byte {
+		sinf := Box("sinf", Cat(Box("frma", []byte("mp4a")), Box("schm", Cat(vf(0, 0), []byte("cenc"), U32(0x10000))),
+			Box("schi", Box("tenc", Cat(vf(0, 0), tencBody)))))
+		return Box("enca", Cat(make([]byte, 6), U16(1), make([]byte, 8), U16(2), U16(16), make([]byte, 4), U16(48000), U16(0), sinf))
+	}
+	kid := hxRepeat(7, 16)
+	init0 := Cat(ftyp, ChainMoov(0, 1, enca(Cat([]byte{0, 0, 1, 0}, kid, []byte{8}, hxRepeat(9, 8))), mvex))
+	init8 := Cat(ftyp, ChainMoov(0, 1, enca(Cat([]byte{0, 0, 1, 8}, kid)), mvex))
+	init16 := Cat(ftyp, ChainMoov(0, 1, enca(Cat([]byte{0, 0, 1, 16}, kid)), mvex))
+	var out [][]byte
+	bodies, ivSize := sencBodiesIV()
+	for i, b := range bodies {
+		senc := Box("senc", b)
+		out = append(out, Cat(simpleMoof(1, 1, senc), mdat))
+		out = append(out, Cat(init0, simpleMoof(1, 1, senc), mdat))
+		switch {
+		case i%3 == 0:
+			out = append(out, Cat(styp, simpleMoof(1, 1, Box("uuid", Cat(piffSencUUID, b))), mdat))
+		case ivSize[i] == 8:
+			out = append(out, Cat(init8, simpleMoof(1, 1, senc), mdat))
+		default:
+			out = append(out, Cat(init16, simpleMoof(1, 1, senc), mdat))
+		}
+	}
+	return out
+}
